@@ -7,7 +7,9 @@ P=$1; K=$2
 SD=/tmp/wt/$P/_seed/$K
 PATCH=${3:-$SD/patch.diff}
 W=/tmp/wt/_confirm_${P}_${K}
-OUT=/verif/seeded/$P-$K
+PR=${P%b}; KK=$K
+if [ "$PR" != "$P" ]; then KK=$((K+3)); fi   # round-2 worktrees /tmp/wt/<Cxx>b -> seeds 4..6 of <Cxx>
+OUT=/verif/seeded/$PR-$KK
 git -C /repo worktree remove --force $W >/dev/null 2>&1
 git -C /repo worktree add -q --detach $W HEAD || exit 2
 cd $W
@@ -28,7 +30,7 @@ if [ "$RC_CLEAN" = "0" ] && [ "$RC_MUT" != "0" ] && [ "$NOTPASS" = "0" ]; then
   cp $SD/demo.py $OUT/demo.py
   cp $SD/notes.md $OUT/notes.md 2>/dev/null
   HEADC=$(git -C /repo rev-parse --short HEAD)
-  /venv/bin/python - "$P" "$K" "$OUT" "$HEADC" <<'PY'
+  /venv/bin/python - "$PR" "$KK" "$OUT" "$HEADC" <<'PY'
 import json, sys, os
 p, k, out, head = sys.argv[1:5]
 notes = open(out + "/notes.md").read() if os.path.exists(out + "/notes.md") else ""
